@@ -8,7 +8,7 @@ executions - no model of the commands.
 import common, gen
 from common import pmap, rng, build
 
-MARK = ''
+MARK = '\ue000'          # private-use code point that no generated text contains
 DOTSENT = b'%%DOT%%'
 REVEAL = b'G"ap"bp"1p"2p""p'
 # register '.' right after the part under test, between two sentinel lines (ex puts do not disturb the repeat buffer)
